@@ -5,7 +5,7 @@ use std::panic::{AssertUnwindSafe, catch_unwind};
 use std::sync::Arc;
 
 use tea_core::prelude::*;
-use tea_core::export::ndarray::{Array1, ArrayView1, s};
+use tea_core::export::ndarray::{Array1, ArrayView1, ArrayViewMut1, s};
 use tevec::map::{MapBasic, MapValidBasic, MapValidFinal, MapValidVec, WinsorizeMethod};
 
 use crate::elem::*;
@@ -169,6 +169,32 @@ where
     })
 }
 
+/// `&[T]` and `&mut [T]` are TIter but not Vec1View: only titer / map
+fn titer_only<'a, T: Elem + Wrap<'a> + 'a>(
+    arena: &'a Arena,
+    data: Vec<T>,
+    backend: &Backend,
+    op: &ViewOp,
+) -> Result<Stream<'a>, String> {
+    let map = match op {
+        ViewOp::Titer => false,
+        ViewOp::TiterMap => true,
+        _ => return bad("slices only offer titer / map"),
+    };
+    let owner: &'a mut Vec<T> = arena.alloc_mut(data);
+    Ok(match backend {
+        Backend::SliceMut => {
+            let h: &'a &'a mut [T] = arena.alloc(owner.as_mut_slice());
+            if map { T::wrap(S::de(TIter::map(h, |x| x))) } else { T::wrap(S::de(h.titer())) }
+        },
+        _ => {
+            let sl: &'a [T] = owner.as_slice();
+            let h: &'a &'a [T] = arena.alloc(sl);
+            if map { T::wrap(S::de(TIter::map(h, |x| x))) } else { T::wrap(S::de(h.titer())) }
+        },
+    })
+}
+
 macro_rules! container_fn {
     ($name:ident, $t:ty, $view:ident) => {
         fn $name<'a>(
@@ -185,6 +211,39 @@ macro_rules! container_fn {
                 Backend::ArcVec => {
                     let v = arena.alloc(Arc::new(data));
                     $view(arena, v, op, |s: &[$t]| s.len() as i32)
+                },
+                Backend::SliceRef | Backend::SliceMut => titer_only::<$t>(arena, data, backend, op),
+                Backend::FixedArray => {
+                    macro_rules! fixed {
+                        ($n:literal) => {{
+                            let arr: [$t; $n] = match data.try_into() {
+                                Ok(a) => a,
+                                Err(_) => return bad("fixed array of wrong length"),
+                            };
+                            let v = arena.alloc(arr);
+                            $view(arena, v, op, |s: &[$t]| s.len() as i32)
+                        }};
+                    }
+                    match data.len() {
+                        0 => fixed!(0),
+                        1 => fixed!(1),
+                        2 => fixed!(2),
+                        3 => fixed!(3),
+                        4 => fixed!(4),
+                        5 => fixed!(5),
+                        6 => fixed!(6),
+                        // longer than the instantiated sizes (re-materialised stream): plain Vec
+                        _ => {
+                            let v = arena.alloc(data);
+                            $view(arena, v, op, |s: &[$t]| s.len() as i32)
+                        },
+                    }
+                },
+                Backend::NdViewMut => {
+                    let owner = arena.alloc_mut(Array1::from_vec(data));
+                    let vm: ArrayViewMut1<'a, $t> = owner.view_mut();
+                    let v = arena.alloc(vm);
+                    $view(arena, v, op, |s: ArrayView1<'_, $t>| s.len() as i32)
                 },
                 Backend::Deque { head } => {
                     let v = arena.alloc(make_deque(data, *head));
@@ -332,6 +391,7 @@ fn container_trk<'a>(
     Ok(match backend {
         Backend::Vec => go!(arena.alloc(data)),
         Backend::ArcVec => go!(arena.alloc(Arc::new(data))),
+        Backend::SliceRef | Backend::SliceMut => return titer_only::<Tracked>(arena, data, backend, op),
         Backend::Deque { head } => go!(arena.alloc(make_deque(data, *head))),
         Backend::Array1 => go!(arena.alloc(Array1::from_vec(data))),
         Backend::Sim => Stream::Trk(S::de(SimSource::new(data))),
